@@ -453,9 +453,9 @@ class C17(core.Check):
     extract_v = "Extract/C17X.v"
     allowed_axioms = set()
     design_ref = "DESIGN.md section 5, C17"
-    technique = ("Coq theorems (structural induction over markup trees, layout segments, widget trees and palette "
+    technique = ("Coq theorems (structural induction over markup trees, layout segments, clipped rows, widget trees and palette "
                  "histories; lia case analysis of the SGR decoder) about a hand-written executable model of "
-                 "decompose_tagmarkup / apply_text_layout / fill_attr_apply / AttrMap.render / register_palette / "
+                 "decompose_tagmarkup / apply_text_layout / trim_text_attr_cs / fill_attr_apply / AttrMap.render / register_palette / "
                  "_attrspec_to_escape; extracted-model correspondence; independent per-cell and SGR-decoding oracle")
     level_text = (
         "Proved in Coq for ALL inputs of the model, no size bound: markup_innermost (every markup tree: the flattened text "
@@ -464,7 +464,11 @@ class C17(core.Check):
         "well-formed segments: every byte of every displayed character carries that character's attribute, inserted "
         "text/clipping pads take the attribute at their offset, alignment padding and canvas fill carry None, and no "
         "zero-length run is left in a row) - the only premise is the data condition enc_ok (encoded lengths >= 0; a byte / an "
-        "ASCII character becomes at most one byte), nothing is assumed of non-ASCII characters; fill_attr_compose / "
+        "ASCII character becomes at most one byte), nothing is assumed of non-ASCII characters; clip_keeps_attr / "
+        "clip_columns_unchanged (every rendered row of 1- and 2-column characters and every clip window, as applied by "
+        "TextCanvas.content(trim_left, cols) for pad_trim_left_right / Overlay / Padding / Columns clipping: visible "
+        "characters keep their attribute and the blank replacing half of a double-width character carries that "
+        "character's attribute; per column the clipped row equals columns sc..ec-1 of the unclipped one); fill_attr_compose / "
         "attrmap_replaces_exactly_listed / attrmap_focus_choice / nested_maps_compose (every widget tree of AttrMap, Pile, "
         "Columns over leaves: each view's final map equals the maps on its path applied inner to outer, each chosen by the "
         "focus flag that reaches it); sgr_roundtrip (every AttrSpec with in-range colour numbers, every colour depth, "
@@ -483,7 +487,10 @@ class C17(core.Check):
         "not fbterm; lines of a layout fit in maxcol (trim_line is then the identity); stateless target encodings.")
     rule = ("cases = markup trees (nested tags incl. None, empty strings, str/bytes, wide, zero-width, multi-byte, DEC "
             "line-drawing and SO/SI characters) through decompose_tagmarkup and Text.render for every wrap x align x "
-            "encoding; random well-formed and malformed layouts through apply_text_layout; trees of AttrMap/AttrWrap "
+            "encoding; random well-formed and malformed layouts through apply_text_layout; rendered Text rows rich in "
+            "double-width characters with an attribute boundary at every character clipped left/right/both at every column "
+            "through TextCanvas.content(trim_left, cols), CompositeCanvas.pad_trim_left_right(-l, -r) and an Overlay "
+            "(exhaustive for 3-character rows); trees of AttrMap/AttrWrap "
             "(dict / single / focus maps, None keys and values) over Text/Pile/Columns; every 16-colour AttrSpec and "
             "sampled 88/256/true-colour ones x flags x bright-is-bold/blink through _attrspec_to_escape; palette "
             "histories (entries, aliases, set_terminal_properties) observed in draw_screen output; non-trivial = "
@@ -503,7 +510,10 @@ class C17(core.Check):
         "target encodings are stateless and ASCII-compatible (utf-8, 8-bit, EUC): the encoded length of a string is the "
         "sum over its characters and an ASCII character / a byte is at most one byte (enc_ok, checked on every case)",
         "on a bright-is-bold terminal a bright basic foreground is conveyed as bold + colour-8 (the terminal's own convention)",
-        "the attribute of an ellipsis / of the pad replacing half a wide character is not constrained by the property (not judged)",
+        "the attribute of an ellipsis inserted by the text layout is not constrained by the property (not judged); the blank "
+        "replacing half of a double-width character must carry that character's attribute (judged for canvas clipping; a "
+        "zero-width character attached to the cut character with a different attribute makes the cell 'any')",
+        "clip theorem: row characters are 1 or 2 columns wide (zero-width characters are covered by correspondence/oracle only)",
     ]
 
     def __init__(self):
@@ -1257,8 +1267,12 @@ class C17(core.Check):
                     want = want[c0:c1]
                     got = rle_expand(clipped)
                     # the clipped row: blank pad cells are 1 byte / 1 column; other characters keep their bytes
-                    gb = self.clipped_bytes(fb, c0, c1)
-                    if gb is None or len(gb) != len(got):
+                    gb, has_zero = self.clipped_bytes(fb, c0, c1)
+                    if not has_zero and len(got) < len(gb):
+                        msgs.append("clip via %s: row %d is cut short after %d of %d bytes: the characters behind are not displayed"
+                                    % (case["via"], y, len(got), len(gb)))
+                        return msgs
+                    if len(gb) != len(got):
                         continue        # the visible bytes are not what clipping the row gives: not judged here
                     gotc = self.column_attrs(got, gb)
                     if gotc is None or len(gotc) != len(want):
@@ -1313,22 +1327,29 @@ class C17(core.Check):
 
     @staticmethod
     def clipped_bytes(bs, c0, c1):
-        """The bytes a row shows in columns [c0, c1): whole characters, one blank per half character."""
+        """The bytes a row shows in columns [c0, c1): whole characters (a zero-width character stays with its
+        base character), one blank per half character.  Second value: does the row hold zero-width characters?"""
         from urwid import str_util
         out, c, i, n = b"", 0, 0, len(bs)
+        base_kept = c0 == 0
+        zero = False
         while i < n:
             j = max(str_util.move_next_char(bs, i, n), i + 1)
             w = str_util.calc_width(bs, i, j)
             if w == 0:
-                if c0 < c <= c1 or (c == c0 == 0):
+                zero = True
+                if base_kept:
                     out += bs[i:j]
             elif c0 <= c and c + w <= c1:
                 out += bs[i:j]
-            elif c < c1 and c + w > c0:
-                out += b" " * (min(c + w, c1) - max(c, c0))
+                base_kept = True
+            else:
+                base_kept = False
+                if c < c1 and c + w > c0:
+                    out += b" " * (min(c + w, c1) - max(c, c0))
             c += w
             i = j
-        return out
+        return out, zero
 
     def oracle_maps(self, case, st):
         """Reference: a grid of attribute names; a map replaces exactly the names it lists (the focus map when
